@@ -2,6 +2,7 @@ package v1
 
 import (
 	"net/http"
+	"strconv"
 
 	"github.com/formancehq/go-libs/v5/pkg/query"
 	"github.com/formancehq/go-libs/v5/pkg/storage/bun/paginate"
@@ -14,7 +15,12 @@ import (
 func buildGetLogsQuery(r *http.Request) query.Builder {
 	clauses := make([]query.Builder, 0)
 	if after := r.URL.Query().Get("after"); after != "" {
-		clauses = append(clauses, query.Lt("id", after))
+		if id, err := strconv.ParseUint(after, 10, 64); err == nil {
+			clauses = append(clauses, query.Lt("id", id))
+		} else {
+			// not a number: left as it is, the storage layer refuses it as an invalid query
+			clauses = append(clauses, query.Lt("id", after))
+		}
 	}
 
 	if startTime := r.URL.Query().Get("start_time"); startTime != "" {
@@ -53,7 +59,7 @@ func getLogs(w http.ResponseWriter, r *http.Request) {
 
 	cursor, err := l.ListLogs(r.Context(), paginatedQuery)
 	if err != nil {
-		common.HandleCommonErrors(w, r, err)
+		common.HandleCommonPaginationErrors(w, r, err)
 		return
 	}
 
